@@ -512,17 +512,18 @@ def applyOnWindowImpute (c : Cfg) (fam : IsiFamily) (o : Oracles) (d : Draws)
 
 /-! ### Step 1 / step 8: scaling by the annual cycle of upper bounds (outside the window loop) -/
 
+/-- the `size` values `a[(start + k) mod n]`, `k = 0 … size−1` (`mode="wrap"`: the array is continued periodically) -/
+def wrapWindow (a : List Rat) (start : Int) (size : Nat) : List Rat :=
+  let n := a.length
+  ((List.replicate (size / n + 1) (a.rotateLeft (start % (n : Int)).toNat)).flatten).take size
+
 /-- `scipy.ndimage.maximum_filter1d(a, size, mode="wrap")`: window `[i − size/2, i − size/2 + size − 1]`, indices mod `n` -/
 def maximumFilterWrap (size : Nat) (a : List Rat) : List Rat :=
-  let n := a.length
-  (List.range n).map (fun (i : Nat) =>
-    maxQ ((List.range size).map (fun (k : Nat) => a.getD ((((i : Int) - ((size / 2 : Nat) : Int) + (k : Int)) % (n : Int)).toNat) 0)))
+  (List.range a.length).map (fun (i : Nat) => maxQ (wrapWindow a ((i : Int) - ((size / 2 : Nat) : Int)) size))
 
 /-- `scipy.ndimage.uniform_filter1d(a, size, mode="wrap")` -/
 def uniformFilterWrap (size : Nat) (a : List Rat) : List Rat :=
-  let n := a.length
-  (List.range n).map (fun (i : Nat) =>
-    ((List.range size).map (fun (k : Nat) => a.getD ((((i : Int) - ((size / 2 : Nat) : Int) + (k : Int)) % (n : Int)).toNat) 0)).sum / (size : Rat))
+  (List.range a.length).map (fun (i : Nat) => (wrapWindow a ((i : Int) - ((size / 2 : Nat) : Int)) size).sum / (size : Rat))
 
 /-- `_step1_get_annual_cycle_of_upper_bounds(vals, days_of_year)`: running mean of the running maximum of the
     multi-year daily maxima; returns `(cycle, unique days of year)` -/
